@@ -76,6 +76,9 @@ def OR(*args):
 
 @dispatcher.register_for('SWITCH')
 def SWITCH(target_value, *args):
+    if isinstance(target_value, error.XLError):
+        # an error in the value that is tested is that error, not the default branch
+        return target_value
     if len(args) <= 1:
         return error.NOT_AVAILABLE
     argc = len(args)
